@@ -42,9 +42,9 @@ type SyncPipeline struct {
 
 // SyncOptions tune NewSyncPipelineOpt.
 type SyncOptions struct {
-	Allocator   *base.LogAllocator // share an allocator (nil = own)
-	NoChunks    bool               // do not create chunk makers (serialized streams only)
-	MetricName  string             // metric prefix (default "sp_")
+	Allocator  *base.LogAllocator // share an allocator (nil = own)
+	NoChunks   bool               // do not create chunk makers (serialized streams only)
+	MetricName string             // metric prefix (default "sp_")
 }
 
 // NewSyncPipeline instantiates everything from an accepted configuration.
